@@ -19,7 +19,10 @@
  (c) the same programs are rendered by the real binary, plain and coloured, with
      --max-trace: exit status 1, no panic, `error:` header, location lines
      file:line:col of the primary span and of every shown stack-trace entry, and the
-     shown / hidden entries exactly Crop(n, t) of the specification.
+     shown / hidden entries exactly Crop(n, t) of the specification (TLC checks LawCrop
+     and emits the table); the coloured report minus its SGR sequences equals the plain one.
+ (d) in the background: Apalache checks spec/SpansArith.tla, the pack / unpack / context
+     lookup round trip over UNBOUNDED integers (all lengths of three contexts, all spans).
 """
 import concurrent.futures as cf
 import json
@@ -37,7 +40,7 @@ PROP = "C16"
 
 MUTANTS = ("gtMask", "lenLe", "searchOk")
 # programs rendered per (family-generator error kind, other family)
-RENDER_PER_GROUP = {"quick": (1, 40), "thorough": (5, 250)}
+RENDER_PER_GROUP = {"quick": (1, 40), "thorough": (4, 200)}
 COLOURS = (False, True)
 
 
